@@ -896,6 +896,11 @@ class OpsMixin:
                 if isinstance(k, Cst) and isinstance(idx, Cst) and k.value == idx.value:
                     base.pairs[i] = (k, val)
                     return
+            if self.rep_stack and not isinstance(idx, Cst):
+                # filled once per element of a symbolic list, keyed by a value of the element: entries
+                # with equal keys collapse, the order is that of the first occurrence of each key
+                base.sym.append(Rep([PTuple([idx, val])], f"bykey({self.rep_stack[-1]})", None))
+                return
             base.pairs.append((idx, val))
             return
         if isinstance(base, PList):
